@@ -84,13 +84,30 @@ def truthy(v):
     if v.kind == 'bytes':
         return z3.And(z3.Not(v.none), v.num > 0)
     if v.kind == 'obj':
+        if v.b is not None:
+            # object of a class that defines __len__ as len(self.key): falsy when the key is empty
+            return z3.And(z3.Not(v.none), ufun('attr_key_len')(v.ident) > 0)
         return z3.Not(v.none)
     if v.kind == 'num':
         return z3.And(z3.Not(v.none), v.num != 0)
     raise Unsupported("truthiness of a %s value" % v.kind)
 
 
+def as_opaque(v):
+    if v.kind == 'opaque':
+        return v
+    if v.kind == 'num':
+        return Val('opaque', none=v.none, ident=v.num)
+    if v.kind == 'bytes':
+        return Val('opaque', none=v.none, ident=v.ident)
+    return None
+
+
 def ite(c, a, b):
+    if a.kind != b.kind and 'opaque' in (a.kind, b.kind):
+        a2, b2 = as_opaque(a), as_opaque(b)
+        if a2 is not None and b2 is not None:
+            a, b = a2, b2
     if a.kind != b.kind:
         raise Unsupported("conditional expression mixes %s and %s" % (a.kind, b.kind))
     k = a.kind
@@ -134,9 +151,16 @@ class Exec:
                     return p.env[k]
                 return opaque()
             base = self.expr(e.value, p)
-            if base.kind == 'obj':
+            if base.kind in ('obj', 'opaque') and base.ident is not None:
+                if e.attr in ('_is_aligned', 'is_password', 'is_master', 'is_localized'):
+                    return Val('bool', b=ufun('battr_' + e.attr, z3.BoolSort())(base.ident))
                 return Val('opaque', none=F(False), ident=ufun('attr_' + e.attr)(base.ident))
             return opaque()
+        if isinstance(e, ast.BinOp) and isinstance(e.op, ast.BitOr):
+            a, b = as_opaque(self.expr(e.left, p)), as_opaque(self.expr(e.right, p))
+            if a is None or b is None:
+                return opaque()
+            return Val('opaque', none=F(False), ident=z3.Function('bor', z3.IntSort(), z3.IntSort(), z3.IntSort())(a.ident, b.ident))
         if isinstance(e, ast.IfExp):
             c = self.cond(e.test, p)
             return ite(c, self.expr(e.body, p), self.expr(e.orelse, p))
@@ -165,6 +189,9 @@ class Exec:
                 return Val('obj', none=F(False), ident=z3.IntVal(DEFAULT_USER))
             if isinstance(f, ast.Attribute):
                 base = self.expr(f.value, p)
+                if base.kind == 'obj' and f.attr == '_pad' and len(e.args) == 1:
+                    p.events.append(('pad', base.ident, as_opaque(self.expr(e.args[0], p))))
+                    return Val('none', none=F(True))
                 if base.kind == 'obj' and not e.args and not e.keywords:
                     if f.attr == 'require_auth':
                         return Val('bool', b=ufun('m_require_auth', z3.BoolSort())(base.ident))
@@ -375,6 +402,114 @@ def disagrees(nat, exp):
     return False
 
 
+def check_user(out):
+    """U1 / U2: class User of src/gufo/snmp/user.py (C12: key material handed to the socket; C14 / C09: a configured key is used)."""
+    rel = 'user.py'
+    tree = ast.parse(open(os.path.join(BASE, rel)).read())
+    # truthiness of key objects: BaseKey and its subclasses
+    keylen = False
+    for st in tree.body:
+        if isinstance(st, ast.ClassDef) and (st.name.endswith('Key') or st.name == 'BaseKey'):
+            for m in st.body:
+                if isinstance(m, ast.FunctionDef) and m.name == '__bool__':
+                    raise Unsupported("class %s defines __bool__" % st.name)
+                if isinstance(m, ast.FunctionDef) and m.name == '__len__':
+                    ok = len(m.body) >= 1 and isinstance(m.body[-1], ast.Return) and ast.unparse(m.body[-1].value) == 'len(self.key)'
+                    if not ok:
+                        raise Unsupported("class %s defines a __len__ that is not len(self.key)" % st.name)
+                    keylen = True
+
+    def key(name):
+        return Val('obj', none=z3.Bool(name + '_is_none'), ident=z3.Int(name + '_id'), b=(F(True) if keylen else None))
+    ak, pk = key('auth_key'), key('priv_key')
+    pre = [ak.ident > 0, pk.ident > 0, ak.ident != pk.ident, ufun('attr_key_len')(ak.ident) >= 0, ufun('attr_key_len')(pk.ident) >= 0]
+    enum = {}
+
+    def run(fn, env):
+        return Exec(enum).block(fn.body, [Path([], env)])
+
+    def prove(oid, fnname, conds, goal, msg):
+        sol = z3.Solver()
+        sol.set('timeout', 20000)
+        for h in pre + conds:
+            sol.add(h)
+        sol.add(z3.Not(goal))
+        t1 = time.time()
+        r = sol.check()
+        out['solver_ms'] += int((time.time() - t1) * 1000)
+        ob = dict(id='user:' + oid, fn="%s :: User.%s" % (rel, fnname), where=fnname, ok=(r == z3.unsat), unknown=(r == z3.unknown), message='')
+        if r == z3.sat:
+            m = sol.model()
+            ob['message'] = "%s (auth_key %s, priv_key %s%s)" % (msg, 'None' if z3.is_true(m.eval(ak.none, model_completion=True)) else 'given',
+                                                                 'None' if z3.is_true(m.eval(pk.none, model_completion=True)) else 'given',
+                                                                 ', priv key of %s octets' % m.eval(ufun('attr_key_len')(pk.ident), model_completion=True) if keylen else '')
+        prev = [o for o in out['obligations'] if o['id'] == ob['id']]
+        if not prev:
+            out['obligations'].append(ob)
+        elif prev[0]['ok'] and not ob['ok']:
+            prev[0].update(ob)
+    # ---- U1: __init__ -----------------------------------------------------------------------------------------------
+    init = find_method(tree, 'User', '__init__')
+    if init is None:
+        raise Unsupported("User.__init__ is gone")
+    paths = run(init, {'name': opaque(), 'auth_key': ak, 'priv_key': pk})
+    aligned = ufun('battr__is_aligned', z3.BoolSort())(ufun('attr_key_type')(pk.ident))
+    n = 0
+    for p in paths:
+        sol = z3.Solver()
+        for h in pre + p.cond:
+            sol.add(h)
+        if sol.check() != z3.sat:
+            continue
+        n += 1
+        must_raise = z3.And(z3.Not(pk.none), ak.none)
+        if p.raised:
+            prove('U1_refuses_only_privacy_without_authentication', '__init__', p.cond, must_raise, "User() raises for a valid combination of keys")
+            continue
+        prove('U1_privacy_needs_authentication', '__init__', p.cond, z3.Not(must_raise), "a privacy key without an authentication key is accepted")
+        pads = [e for e in p.events if e[0] == 'pad']
+        want_pad = z3.And(z3.Not(pk.none), z3.Not(ak.none), aligned)
+        if len(pads) > 1:
+            raise Unsupported("User.__init__ pads more than once on a path")
+        if pads:
+            _, who, arg = pads[0]
+            prove('U1_pads_the_privacy_key_iff_it_is_a_master_or_localized_key', '__init__', p.cond,
+                  z3.And(want_pad, who == pk.ident, arg.ident == ufun('attr_KEY_LENGTH')(ak.ident)) if arg is not None else F(False),
+                  "the privacy key is padded although it is a password, or not to the authentication key length")
+        else:
+            prove('U1_pads_the_privacy_key_iff_it_is_a_master_or_localized_key', '__init__', p.cond, z3.Not(want_pad),
+                  "a master / localized privacy key is not padded to the authentication key length")
+        for fld, v in (('auth_key', ak), ('priv_key', pk)):
+            got = p.env.get('self.' + fld)
+            prove('U1_keeps_the_keys_it_is_given', '__init__', p.cond,
+                  z3.And(got.none == v.none, z3.Or(v.none, got.ident == v.ident)) if got is not None and got.kind == 'obj' else F(False),
+                  "self.%s is not the %s argument" % (fld, fld))
+    if n < 3:
+        raise Unsupported("User.__init__: fewer than 3 feasible paths")
+    out['functions'].append(dict(fn='src/gufo/snmp/user.py :: User.__init__', contract=True, mode='pyinit-wp', paths=n))
+    # ---- U2: getters ------------------------------------------------------------------------------------------------
+    bor = z3.Function('bor', z3.IntSort(), z3.IntSort(), z3.IntSort())
+    table = (('get_auth_alg', ak, lambda k: bor(ufun('attr_AUTH_ALG')(k), ufun('attr__mask')(ufun('attr_key_type')(k))), z3.IntVal(0)),
+             ('get_priv_alg', pk, lambda k: bor(ufun('attr_PRIV_ALG')(k), ufun('attr__mask')(ufun('attr_key_type')(k))), z3.IntVal(0)),
+             ('get_auth_key', ak, lambda k: ufun('attr_key')(k), z3.IntVal(-100)),
+             ('get_priv_key', pk, lambda k: ufun('attr_key')(k), z3.IntVal(-100)))
+    for name, kv, want, dflt in table:
+        fn = find_method(tree, 'User', name)
+        if fn is None:
+            raise Unsupported("User.%s is gone" % name)
+        for p in run(fn, {'self.auth_key': ak, 'self.priv_key': pk}):
+            sol = z3.Solver()
+            for h in pre + p.cond:
+                sol.add(h)
+            if sol.check() != z3.sat:
+                continue
+            r = as_opaque(p.ret) if p.ret is not None else None
+            goal = (r.ident == z3.If(kv.none, dflt, want(kv.ident))) if r is not None else F(False)
+            prove('U2_%s_of_the_configured_key' % name, name, p.cond, goal,
+                  "%s() does not return the value of the configured key (a key that is set counts as configured, whatever it holds)" % name)
+        out['functions'].append(dict(fn='src/gufo/snmp/user.py :: User.%s' % name, contract=True, mode='pyinit-wp'))
+
+
 def main():
     out = dict(obligations=[], assumptions=[], functions=[], guards=[], solver_ms=0)
     try:
@@ -533,6 +668,7 @@ def main():
                                                ok=(r == z3.unsat), unknown=(r == z3.unknown),
                                                message="" if r == z3.unsat else "fetch() does not return getbulk() exactly when self._allow_bulk"))
             out['functions'].append(dict(fn='src/gufo/snmp/%s :: SnmpSession.fetch' % rel, contract=True, mode='pyinit-wp', paths=len(fp)))
+        check_user(out)
     except Unsupported as e:
         print(json.dumps(dict(inconclusive="unsupported construct: %s" % e)))
         return 2
